@@ -322,6 +322,18 @@ func MapOrderName(o int) string {
 	return n
 }
 
+// RangeChan is `for v := range ch`: receives through the scheduler until the channel is closed and drained.
+func RangeChan[T any, C ~chan T | ~<-chan T](ch C) iter.Seq[T] {
+	return func(yield func(T) bool) {
+		for {
+			v, ok := Recv2((<-chan T)(ch))
+			if !ok || !yield(v) {
+				return
+			}
+		}
+	}
+}
+
 // RangeMap iterates m in a deterministic key order.
 func RangeMap[M ~map[K]V, K comparable, V any](m M) iter.Seq2[K, V] {
 	return func(yield func(K, V) bool) {
